@@ -22,15 +22,44 @@ var elementKinds = []string{"node", "way", "relation", "changeset", "note", "use
 var bodyShapes = []struct {
 	Name  string
 	Elems []string
+	IDs   []int64 // ids of the elements by position; nil = the default ids
 }{
-	{"empty", nil},
-	{"one", []string{"k"}},
-	{"two", []string{"k", "k"}},
-	{"one+foreign", []string{"f1", "k", "f2"}},
-	{"foreign-only", []string{"f1", "f2"}},
+	{"empty", nil, nil},
+	{"one", []string{"k"}, nil},
+	{"two", []string{"k", "k"}, nil},
+	{"one+foreign", []string{"f1", "k", "f2"}, nil},
+	{"foreign-only", []string{"f1", "f2"}, nil},
 	// thorough only
-	{"three-unsorted+foreign", []string{"k", "f2", "k", "k", "f1"}},
+	{"three-unsorted+foreign", []string{"k", "f2", "k", "k", "f1"}, nil},
+	// boundary bodies: edge pass in quick; the first three also in the full product
+	// of the thorough tier.
+	// three versions of ONE id, as every history call answers (and what a
+	// single-element call must reject although only one id is present)
+	{"three-same-id", []string{"k", "k", "k"}, []int64{101, 101, 101}},
+	// an element id beyond the 40 ref bits of the packed feature ids
+	{"one-id-2^40+7", []string{"k"}, []int64{1<<40 + 7}},
+	// the largest id and id 0 next to each other
+	{"two-ids-max-and-0", []string{"k", "k"}, []int64{1<<63 - 1, 0}},
+	// many elements: see manyBody
+	{"many-250+foreign", manyBody, nil},
 }
+
+// bodyThreeSameID .. bodyMany are the indexes of the boundary bodies.
+const (
+	bodyThreeSameID = 6
+	bodyOneBigID    = 7
+	bodyTwoExtreme  = 8
+	bodyMany        = 9
+)
+
+// manyBody: a foreign element, 250 elements of the returned kind, a foreign element.
+var manyBody = func() []string {
+	out := []string{"f1"}
+	for i := 0; i < 250; i++ {
+		out = append(out, "k")
+	}
+	return append(out, "f2")
+}()
 
 func bodyElems(e *endpoint, shape int) []elem {
 	k := e.Kind
@@ -53,7 +82,13 @@ func bodyElems(e *endpoint, shape int) []elem {
 		case "f2":
 			kind = foreign[1]
 		}
-		out = append(out, elem{Kind: kind, ID: ids[i], Version: i + 1})
+		id := int64(1000 + i)
+		if sh := bodyShapes[shape]; sh.IDs != nil {
+			id = sh.IDs[i]
+		} else if i < len(ids) {
+			id = ids[i]
+		}
+		out = append(out, elem{Kind: kind, ID: id, Version: i + 1})
 	}
 	return out
 }
